@@ -136,6 +136,19 @@ func (s *c07BSUT) Revert(cp any) {
 }
 func (s *c07BSUT) Close() {}
 
+func (s *c07BSUT) Lock(k []byte, persistent bool) error {
+	if persistent {
+		s.us.GetMemBuffer().UpdateFlags(k, kv.SetKeyLocked)
+	} else {
+		s.us.GetMemBuffer().UpdateFlags(k, kv.SetPresumeKeyNotExists)
+	}
+	return nil
+}
+
+func (s *c07BSUT) SetLocked(k, v []byte) error {
+	return s.us.GetMemBuffer().SetWithFlags(k, v, kv.SetKeyLocked)
+}
+
 type c07BWorld struct{ snap *c07MSnap }
 
 func (w *c07BWorld) NewSUT(_ *rand.Rand) (c07m.SUT, error) {
